@@ -33,6 +33,7 @@ import time as _time
 from copy import deepcopy
 
 from harness import common
+from harness.planners import _worlds
 
 NAME = "ilp"
 PROPS = {"C10", "C11", "C12", "C14"}
@@ -133,7 +134,7 @@ def build_world(spec: dict) -> World:
                 R["ExecutionStrategy"](
                     resources=Resources(resource_vector={Resource(name=n, _id="any"): q for n, q in s["req"]}),
                     batch_size=s["batch"],
-                    runtime=US(s["runtime"]),
+                    runtime=_worlds.et(R, s["runtime"], s.get("rt_ms")),  # mixed-unit flavour: some runtimes in ms
                 )
                 for s in strats
             ]
@@ -157,14 +158,12 @@ def build_world(spec: dict) -> World:
                 name=t["name"],
                 task_graph=g["name"],
                 job=R["Job"](name=t["name"], profile=profile),
-                deadline=US(t["deadline"]),
+                deadline=_worlds.et(R, t["deadline"], t.get("dl_ms")),
                 timestamp=t["ts"],
             )
             tasks.append(task)
-        children = {task: [] for task in tasks}
-        for a, b in g["edges"]:
-            children[tasks[a]].append(tasks[b])
-        graphs[g["name"]] = R["TaskGraph"](name=g["name"], tasks=children)
+        # node insertion order of the real graph = declaration order g["decl"] (default: index order)
+        graphs[g["name"]] = R["TaskGraph"](name=g["name"], tasks=_worlds.children_mapping(g, tasks))
         for t, task in zip(g["tasks"], tasks):
             w.tasks[task.unique_name] = task
             w.task_list.append((t, task))
@@ -174,9 +173,9 @@ def build_world(spec: dict) -> World:
         st = t["state"]
         if st == "VIRTUAL":
             if t.get("release") is not None:
-                task._release_time = US(t["release"])  # estimated release of a not yet released task
+                task._release_time = _worlds.et(R, t["release"], t.get("rel_ms"))  # estimated release of a not yet released task
             continue
-        task.release(US(t["release"]))
+        task.release(_worlds.et(R, t["release"], t.get("rel_ms")))
         if st == "RELEASED":
             continue
         prev = t["prev"]
@@ -222,6 +221,10 @@ def build_world(spec: dict) -> World:
         batching=bool(f.get("batching", False)),
     )
     w.scheduler._allowed_to_miss_deadlines = set(spec.get("allowed0", []))
+    if spec.get("warmup"):
+        # warm-scheduler flavour: the same scheduler object has already been invoked once, on an unrelated world
+        # (its persistent `_allowed_to_miss_deadlines` is read at the judged call and handed to the model)
+        _worlds.run_warmup(R, w.scheduler, spec["warmup"])
     return w
 
 
@@ -1436,6 +1439,7 @@ def run_case(spec: dict, want_opt: bool):
 
 def canonical_case(spec: dict) -> dict:
     c = {k: spec[k] for k in ("now", "pools", "graphs", "flags", "allowed0")}
+    c.update({k: spec[k] for k in ("scale", "warmup") if spec.get(k)})  # flavours (harness/planners/_worlds.py)
     return c
 
 
@@ -1480,6 +1484,17 @@ def compare_case(w, rec, reply, want_opt) -> list[str]:
     return dis
 
 
+def _count_flavours(chk, name, spec):
+    if spec.get("scale"):
+        chk.count(f"{name}:flavour=1000x-scale" + (",mixed-units-in-one-profile" if _worlds.has_mixed_profile(spec) else ""))
+    if any(g.get("decl") for g in spec["graphs"]):
+        chk.count(f"{name}:flavour=declaration-order" + ("" if all(_worlds.is_topological_decl(g) for g in spec["graphs"]) else ",non-topological"))
+    if spec.get("flavour"):
+        chk.count(f"{name}:flavour={spec['flavour']}")
+    if spec.get("warmup"):
+        chk.count(f"{name}:flavour=warm-scheduler")
+
+
 def counts_for(prop: str, tier: str) -> int:
     quick = {"C10": 60, "C11": 60, "C12": 60, "C14": 80}
     thorough = {"C10": 600, "C11": 600, "C12": 500, "C14": 700}
@@ -1489,15 +1504,94 @@ def counts_for(prop: str, tier: str) -> int:
 KIND = {"C10": "mix", "C11": "dag", "C12": "deadline", "C14": "c14"}
 
 
+def gen_chain_b(rng) -> dict:
+    """Chain-B world (see `_worlds.gen_chain_b`): retracting mode, RUNNING X -> SCHEDULED B -> VIRTUAL C declared in
+    a non-topological order, `runtime(B) <= lookahead < remaining(X)`.  Nothing of such a chain is schedulable
+    (the ILP builds no model: the world holds nothing else that could be offered, because a SCHEDULED task
+    the retracting frontier does not give back lies outside `Inst.wfPlaced`); in the control worlds
+    (lookahead 30) everything is re-offered."""
+    b = _worlds.gen_chain_b(rng, now_choices=(0, 3, 7), extra_graph=False)
+    flags = {
+        "enforce_deadlines": True,
+        "retract": True,
+        "release_taskgraphs": rng.random() < 0.15,
+        "lookahead": b["lookahead"],
+        "goal": "max_goodput",
+    }
+    return {"now": b["now"], "pools": b["pools"], "graphs": b["graphs"], "flags": flags, "allowed0": [],
+            "uuid_seed": rng.randint(0, 10**9), "flavour": "chain_b" + ("_control" if b["control"] else "")}
+
+
+def mixed_corpus() -> list[dict]:
+    """Hand-written mixed-unit worlds (1000x scale): a parent whose only compatible strategy is the slow one,
+    written in ms next to a fast one in us (raw integers 5 < 2000), and its child offered by lookahead."""
+    def st(rt, cpu, ms=False):
+        d = {"batch": 1, "runtime": rt, "req": [["CPU", cpu]]}
+        if ms:
+            d["rt_ms"] = True
+        return d
+
+    flags = {"enforce_deadlines": True, "retract": False, "release_taskgraphs": False, "lookahead": 20000, "goal": "max_goodput"}
+    return [
+        {
+            "now": 3000,
+            "scale": 1000,
+            "pools": [{"name": "P0", "workers": [{"name": "W0", "res": [["CPU", 2]]}]}],
+            "graphs": [
+                {
+                    "name": "G0",
+                    "tasks": [
+                        {"name": "A", "ts": 0, "state": "RELEASED", "strats": [st(2000, 3), st(5000, 1, ms=True)], "deadline": 40000, "dl_ms": True, "release": 2000, "rel_ms": True},
+                        {"name": "B", "ts": 0, "state": "VIRTUAL", "strats": [st(3000, 1)], "deadline": 40000, "release": None},
+                    ],
+                    "edges": [[0, 1]],
+                    "decl": [1, 0],
+                }
+            ],
+            "flags": dict(flags),
+            "allowed0": [],
+            "uuid_seed": 21,
+        }
+    ]
+
+
+P_DECL, P_MIXED, P_WARM = 0.4, 0.25, 0.15
+
+
 def gen_specs(prop: str, rng, tier: str, widened=False) -> list[dict]:
     n = counts_for(prop, tier)
     if widened:
         n *= 2
     r = rng.sub(f"ilp/{prop}/{'w' if widened else 'n'}")
+    fr = rng.sub(f"ilp/{prop}/{'w' if widened else 'n'}/flavours")  # own stream: the base worlds stay what they were
     specs = list(corpus(KIND[prop]))
+    n_corpus = len(specs)
     kinds = [KIND[prop]] if not widened else ["mix", "dag", "deadline", "c14"]
     while len(specs) < n:
-        specs.append(gen_world(r, r.choice(kinds)))
+        k = r.choice(kinds)
+        spec = gen_world(r, k)
+        spec["kind"] = k
+        specs.append(spec)
+    for spec in specs[n_corpus:]:
+        # flavours (harness/planners/_worlds.py): non-topological declaration order; 1000x scale with mixed units
+        # (not for the enumerable C14 instances: their exhaustive searches range over every start instant)
+        if fr.random() < P_DECL:
+            _worlds.shuffle_decl(spec, fr)
+        if prop != "C14" and spec["kind"] != "c14" and fr.random() < P_MIXED:
+            _worlds.scale_mixed(spec, fr)
+    wr = rng.sub(f"ilp/{prop}/{'w' if widened else 'n'}/warmup")
+    for spec in specs[n_corpus:]:
+        if wr.random() < P_WARM:
+            _worlds.gen_warmup(spec, wr)
+    if prop != "C14":
+        specs[n_corpus:n_corpus] = mixed_corpus()
+    if prop in ("C10", "C11"):
+        # chain-B worlds in addition (10 %)
+        for _ in range(max(4, n // 10)):
+            spec = gen_chain_b(fr)
+            if fr.random() < 0.3:
+                _worlds.scale_mixed(spec, fr)
+            specs.append(spec)
     return specs
 
 
@@ -1538,6 +1632,7 @@ def run(prop: str, chk, rng, tier: str) -> list[str]:
         chk.count(f"ilp:placed={min(placed, 5)}")
         chk.count(f"ilp:goal={f['goal']}")
         chk.count(f"ilp:retract={f['retract']},release_tg={f['release_taskgraphs']}")
+        _count_flavours(chk, "ilp", spec)
         if rec["err"]:
             chk.count("ilp:raised")
         if reply is not None:
